@@ -102,7 +102,9 @@ raw_sprinkled = st.lists(st.one_of(st.text(alphabet=NUC, min_size=1, max_size=30
 # and canonical decompositions containing one, look-alikes, white space and zero-width characters
 CONFUSABLES = [chr(int(l, 16)) for l in open(os.path.join(os.path.dirname(os.path.abspath(__file__)), "confusables.txt")) if l.strip()]
 confusable_sprinkled = st.lists(st.one_of(st.text(alphabet=NUC, min_size=1, max_size=30), st.sampled_from(CONFUSABLES)), min_size=1, max_size=24).map("".join)
-any_text = st.one_of(nuc_text, mixed_text, uni_text, sprinkled, raw_sprinkled, confusable_sprinkled)
+# nucleotides with a few of the usual non-nucleotide characters of sequence files (ambiguity codes, gaps, stops, blanks)
+mixed_sprinkled = st.lists(st.one_of(st.text(alphabet=NUC, min_size=1, max_size=30), st.sampled_from(list("NnRYKMSWBDHVXry-*. \t0189\r\n"))), min_size=1, max_size=16).map("".join)
+any_text = st.one_of(nuc_text, mixed_text, uni_text, sprinkled, raw_sprinkled, confusable_sprinkled, mixed_sprinkled)
 
 
 def long_text(w):
@@ -448,7 +450,7 @@ def drivers():
         "to-acgt": (k_st.flatmap(lambda k: st.fixed_dictionaries({"k": st.just(k), "x": st.one_of(st.integers(0, 4 ** k - 1), st.sampled_from([0, 4 ** k - 1]))})), 0.05),
         "minimiser-iterator": (wm_st().flatmap(lambda wm: st.fixed_dictionaries({"seq": st.one_of(any_text, long_text(wm[0])), "w": st.just(wm[0]), "m": st.just(wm[1])})), 0.22),
         "oligo": (st.fixed_dictionaries({"seqs": batch_st(any_text), "k": st.integers(1, 6), "norm": st.booleans()}), 0.17),
-        "cgr": (st.fixed_dictionaries({"seqs": batch_st(st.one_of(nuc_text, nuc_text, nuc_text, sprinkled, raw_sprinkled, confusable_sprinkled)), "s": S_ST}), 0.17),
+        "cgr": (st.fixed_dictionaries({"seqs": batch_st(st.one_of(nuc_text, nuc_text, nuc_text, sprinkled, raw_sprinkled, confusable_sprinkled, mixed_sprinkled)), "s": S_ST}), 0.17),
         "equal-length-temporaries": (st.integers(3, 8).flatmap(lambda n: st.sampled_from([30, 64, 150, 250, 511, 512, 513, 600, 1000, 1024]).flatmap(lambda L: st.fixed_dictionaries({
             "seqs": st.lists(st.lists(st.sampled_from(list("ACGTACGTN")), min_size=L, max_size=L), min_size=n, max_size=n),
             "k": k_st, "w": st.integers(20, 40), "m": st.integers(1, 20), "ok": st.integers(1, 5), "norm": st.booleans(), "s": S_ST}))), 0.02),
